@@ -110,6 +110,10 @@ type jwtSetup struct {
 	maxAge  time.Duration
 	cookie  string
 	mw      *samlsp.Middleware
+	// one handler chain per gate, kept for the life of the setup: a deployment wraps its handler once and serves every
+	// request with that instance, so whatever one request leaves behind the next one meets
+	chains map[string]http.Handler
+	ran    *string
 }
 
 func (c *Ctx) newJWTSetup(keyName, rootURL, cookieName string, maxAge time.Duration) *jwtSetup {
@@ -147,20 +151,34 @@ func (s *jwtSetup) codecToks() []string {
 func (s *jwtSetup) observe(cookieValue *string, gate *[2]string, now time.Time) string {
 	jwt.TimeFunc = func() time.Time { return now }
 	saml.TimeNow = func() time.Time { return now }
-	ran := "deny"
-	inner := http.Handler(http.HandlerFunc(func(w http.ResponseWriter, r *http.Request) {
-		sess := samlsp.SessionFromContext(r.Context())
-		cl, ok := sess.(samlsp.JWTSessionClaims)
-		if !ok {
-			ran = "admit-without-session"
-			return
-		}
-		ran = "admit " + encStr(cl.Subject) + " " + encStr(canonAttrs(cl.Attributes))
-	}))
-	if gate != nil {
-		inner = samlsp.RequireAttribute(gate[0], gate[1])(inner)
+	if s.chains == nil {
+		s.chains = map[string]http.Handler{}
+		s.ran = new(string)
 	}
-	h := s.mw.RequireAccount(inner)
+	gk := "-"
+	if gate != nil {
+		gk = "+" + gate[0] + "\x00" + gate[1]
+	}
+	h, ok := s.chains[gk]
+	if !ok {
+		ran := s.ran
+		inner := http.Handler(http.HandlerFunc(func(w http.ResponseWriter, r *http.Request) {
+			sess := samlsp.SessionFromContext(r.Context())
+			cl, ok := sess.(samlsp.JWTSessionClaims)
+			if !ok {
+				*ran = "admit-without-session"
+				return
+			}
+			*ran = "admit " + encStr(cl.Subject) + " " + encStr(canonAttrs(cl.Attributes))
+		}))
+		if gate != nil {
+			inner = samlsp.RequireAttribute(gate[0], gate[1])(inner)
+		}
+		h = s.mw.RequireAccount(inner)
+		s.chains[gk] = h
+	}
+	*s.ran = "deny"
+	ran := s.ran
 	r, _ := http.NewRequest("GET", s.rootURL+"/protected", nil)
 	if cookieValue != nil {
 		r.AddCookie(&http.Cookie{Name: s.cookie, Value: *cookieValue})
@@ -168,7 +186,7 @@ func (s *jwtSetup) observe(cookieValue *string, gate *[2]string, now time.Time) 
 	return safely(func() string {
 		w := httptest.NewRecorder()
 		h.ServeHTTP(w, r)
-		return ran
+		return *ran
 	})
 }
 
@@ -290,6 +308,20 @@ func (c *Ctx) genC16() {
 			t := c.sign(s.alg, base, s.keyName)
 			g := g
 			c.sessionCase(s, &t, &g, now, "gate")
+		}
+		// one gate instance over a sequence of requests: a session that carries the value, then sessions that lack the value
+		// or the attribute, then the first again — every request is judged on its own session
+		{
+			g := [2]string{"groups", "admin"}
+			seq := []jwtClaims{base, base, base, base, base}
+			seq[1].Sub, seq[1].Attrs = "bob", map[string][]string{"uid": {"bob"}, "groups": {"staff"}}
+			seq[2].Sub, seq[2].Attrs = "carol", map[string][]string{"uid": {"carol"}}
+			seq[3].Sub, seq[3].Attrs = "dave", map[string][]string{"uid": {"dave"}, "groups": {"administrators", "admin2"}}
+			for i, cl := range seq {
+				t := c.sign(s.alg, cl, s.keyName)
+				c.sessionCase(s, &t, &g, now, fmt.Sprintf("gate-sequence-%d", i))
+			}
+			c.sessionCase(s, nil, &g, now, "gate-sequence-no-cookie")
 		}
 		// no cookie / garbage / truncations / alterations
 		c.sessionCase(s, nil, nil, now, "no-cookie")
